@@ -262,9 +262,34 @@ func (ch *Chaos) deviate(cp *ChaosPeer, c *Conn, dev int) {
 		w.WaitUntil("dev.proto", 10*time.Second, c.LocalClosed)
 		c.FIN()
 	case devGarbage:
+		// a faulty header, alone or pipelined behind a message that makes the FSM
+		// leave its state (so that the reader's error report meets an FSM that has
+		// already gone)
+		var stream []byte
+		switch w.Draw(4, "gpre") {
+		case 1:
+			stream = append(stream, MkNotif(byte(w.Range(1, 6, "gncode")), 0, nil)...)
+		case 2:
+			stream = append(stream, MkFrame(MsgOpen, GoodOpen(cp.Spec.RemoteAS, cp.RemoteHold, IPToU32(cp.RemoteID)))...)
+			stream = append(stream, MkFrame(MsgOpen, GoodOpen(cp.Spec.RemoteAS, cp.RemoteHold, IPToU32(cp.RemoteID)))...)
+		case 3:
+			stream = append(stream, KeepaliveFrame()...)
+		}
 		m := AllOnes()
-		m[w.Draw(16, "gidx")] = 0
-		c.SendSeg(MkRawHeader(m, 19, 4, nil))
+		switch w.Draw(5, "gkind") {
+		case 0:
+			m[w.Draw(16, "gidx")] = 0
+			stream = append(stream, MkRawHeader(m, 19, 4, nil)...)
+		case 1:
+			stream = append(stream, MkRawHeader(m, uint16(Pick(w, "glen", 0, 18, 4097, 65535)), 4, nil)...)
+		case 2:
+			stream = append(stream, MkRawHeader(m, 19, byte(Pick(w, "gtype", 0, 5, 200)), nil)...)
+		case 3: // lengths that are wrong for the message type
+			stream = append(stream, MkRawHeader(m, 20, 4, []byte{0})...)
+		default:
+			stream = append(stream, MkRawHeader(m, 20, 3, []byte{6})...)
+		}
+		c.SendSeg(stream)
 		w.WaitUntil("dev.garbage", 10*time.Second, c.LocalClosed)
 		c.FIN()
 	case devBadMsg:
